@@ -13,6 +13,7 @@ import typing
 from core import framework as fw
 from core import sexp
 
+from . import c03_bridge as br
 from . import pipegen as pg
 
 PROBE = 900  # tag of the stateful mapper appended to observe the final train features / labels
@@ -195,6 +196,10 @@ def _impl(ast):
         'states': sorted(sexp.dumps([t, pg.to_sexp(s)]) for t, s in res.states),
         'stats': res.stats,
     }
+    try:
+        out['segments'] = br.real_segments(comp)
+    except Exception as err:  # pylint: disable=broad-except
+        out['segments'] = {'export_error': f'{type(err).__name__}: {err}'[:300]}  # a defect of the exporter, not of forml
     del comp
     expr = pg.build(ast)
     first, second = expr.expand(), expr.expand()
@@ -391,7 +396,7 @@ FEATURES = ('stack-in-base', 'stack-in-scope', 'debug-in-base', 'debug-in-scope'
 
 class C03(fw.Check):
     ID = 'C03'
-    LEAN_MODULES = ['ForML.Props.C03']
+    LEAN_MODULES = ['ForML.Props.C03', 'ForML.Props.C03E2E']
     DRIVER = 'drv_c03'
     RULE = ('pipeline expressions over the real operator library (wrap mapper/apply/train/label operators and their '
             'combinations incl. builders shared between slots, payload.MapReduce, payload.Dump, ensemble.FullStack with 2-3 '
@@ -407,7 +412,11 @@ class C03(fw.Check):
             'Implementation = flow.Composition(source, expr): train and apply segment compiled and interpreted, the apply '
             'run loading the states of the train run; compared with the Lean expansion+evaluation, the Lean denotation and '
             'the Python oracle (train output, apply output, multiset of trained states); plus two expansions of the same '
-            'expression: no shared node, no shared group, equal group structure.')
+            'expression: no shared node, no shared group, equal group structure. C01 bridge: the train / apply segments of the '
+            'real composition (Traversal.each members, subscriptions, groups, trained-elsewhere, Composition.persistent) against '
+            'toSegment of the model in a uid/gid/order-independent canonical form; the hypothesis of C03_end_to_end_partial '
+            '(bridgeOK) and the model-level chain compile -> reference interpreter = denotation evaluated on every case that '
+            'maps the train path.')
     TRUSTED = [
         'symbolic payloads: actors are uninterpreted function symbols over provenance terms (parametricity of the flow layer, DESIGN section 3)',
         'reference interpreter of compiled symbol tables (props/pipegen.interpret) and the asset.State double: the apply run '
@@ -597,6 +606,44 @@ class C03(fw.Check):
             out['groups'] = sorted(tuple(int(i) for i in g) for g in f.get('groupsig', []))
         return out
 
+    def _compare_segments(self, ast, real, mseg) -> bool:
+        """C01 bridge: the model's `toSegment` of the composition against the segments of the real composition (canonical
+        form of props/c03_bridge.py), C01's decidable side conditions on the model's segments and the model-level chain
+        compile -> reference interpreter = denotation."""
+        ok = True
+        case = {'expr': ast}
+        rseg = real.get('segments') if isinstance(real, dict) else None
+        if rseg is None:
+            return True
+        if 'export_error' in rseg:
+            raise fw.MachineryError('segment exporter failed on ' + sexp.dumps(ast) + ': ' + rseg['export_error'])
+        if 'error' in mseg:
+            self.diverge('model refuses the composition (bridge)', case, 'ok', mseg['error'])
+            return False
+        # an expression that leaves the train path untouched ends the train segment in the `Future` proxying the first
+        # output port of the (two-output) label extractor: not a `(head, tail)` of workers, outside C01's `Segment`
+        for name in (('train', 'apply') if br.maps_train(ast) else ('apply',)):
+            for key in ('nodes', 'head', 'tail', 'groups', 'elsewhere', 'dangling'):
+                if rseg[name][key] != mseg[name][key]:
+                    self.diverge(f'{name} segment of flow.Composition vs toSegment of the model: {key}', case,
+                                 str(rseg[name][key])[:300], str(mseg[name][key])[:300])
+                    ok = False
+        if rseg['persistent'] != mseg['persistent']:
+            self.diverge('Composition.persistent vs persistentOf of the model (groups in list order)', case,
+                         rseg['persistent'], mseg['persistent'])
+            ok = False
+        if br.maps_train(ast):
+            bad = [n for n, b in mseg['checks'].items() if not b]
+            if bad:
+                self.diverge('C01 side conditions (wf / connected / assetsOK) fail on the segments of the model', case, None, bad)
+                ok = False
+            elif not mseg['agree']:
+                self.diverge('model: compiled tables of the two segments do not evaluate to the Lean denotation (C03_end_to_end)',
+                             case, None, 'agree=false')
+                ok = False
+        self._bridge_count = getattr(self, '_bridge_count', 0) + 1
+        return ok
+
     def _compare(self, ast, spec, real, mrun, mden):
         """Appends divergences / violations for one case; returns True when everything agreed."""
         ok = True
@@ -668,11 +715,13 @@ class C03(fw.Check):
         for ast in kept:
             lines.append(sexp.dumps(['run', pg.to_library(ast)]))
             lines.append(sexp.dumps(['denote', pg.to_library(ast)]))
+            lines.append(sexp.dumps(['bridge', [br.SRC_APPLY, br.SRC_TRAIN, br.SRC_LABEL], pg.to_library(ast)]))
         answers = self.model(lines)
         verdicts = []
         for i, (ast, spec, real) in enumerate(zip(kept, specs, reals)):
-            mrun = self._model_fields(answers[2 * i])
-            mden = self._model_fields(answers[2 * i + 1])
+            mrun = self._model_fields(answers[3 * i])
+            mden = self._model_fields(answers[3 * i + 1])
+            mseg = br.model_segments(sexp.loads(answers[3 * i + 2]))
             if account:
                 kinds = pg.kinds(ast)
                 nl = pg.leaves(ast)
@@ -683,7 +732,8 @@ class C03(fw.Check):
                     ' ' + f for f in FEATURES if f in feats)
                 self.case(sexp.dumps(ast), bucket, nontrivial=nl >= 2 or bool(kinds - {'wrap'}),
                           sample={'expr': sexp.dumps(ast), 'train': spec['train'][:200]} if nl >= 3 else None)
-            verdicts.append(self._compare(ast, spec, real, mrun, mden))
+            verdict = self._compare(ast, spec, real, mrun, mden)
+            verdicts.append(self._compare_segments(ast, real, mseg) and verdict)
         return verdicts
 
     def _malformed(self):
@@ -722,6 +772,7 @@ class C03(fw.Check):
         self._evaluate(cases)
         counts = {f: self._feature_count.get(f, 0) for f in FEATURES}
         self.notes.append('nested-ensemble stream, cases evaluated per shape: ' + ', '.join(f'{f}={n}' for f, n in counts.items()))
+        self.notes.append(f'C01 bridge: segments of {getattr(self, "_bridge_count", 0)} real compositions compared with toSegment of the model')
         thin = [f for f, n in counts.items() if n < 8]
         if thin:
             raise fw.MachineryError(f'generator did not reach the shapes {thin} (nested ensembles / debug / label operators in ensembles)')
